@@ -104,7 +104,9 @@ class ProcessWorker(Worker):
         else:
             try:
                 self._ctrl_comms.parent_end.put('terminate')
-                self._ctrl_comms.parent_end.get()
+                # the child's control thread cannot answer if the child is stopped or stuck in a C call holding the GIL
+                if self._ctrl_comms.parent_end.poll(timeout):
+                    self._ctrl_comms.parent_end.get()
             except (BrokenPipeError, queue.Empty):
                 pass
 
@@ -114,6 +116,10 @@ class ProcessWorker(Worker):
                 if force:
                     self._child.terminate()
                     self._child.join(timeout)
+                    if self._child.is_alive():
+                        # SIGTERM stays pending for a stopped child and gives no guarantees when timeout is 0, SIGKILL does
+                        self._child.kill()
+                        self._child.join(5)
                     # try:
                     #     self._comms.child_end.put((False, None))
                     #     self._comms.child_end.close()
